@@ -17,7 +17,8 @@ from ..common import gen_write, harness, REPO
 from ..rustscan import ExtractError, enum_variants, read, mask, block_after, match_brace, match_arms
 
 BOOL_FEATURES = ["use_fetch", "set_ops_distinct", "except_all", "intersect_all", "has_concat_function", "stars_in_group", "supports_distinct_on",
-                 "supports_zero_columns", "prefers_subquery_parentheses_shorthand", "requires_order_by_in_window_function"]
+                 "supports_zero_columns", "prefers_subquery_parentheses_shorthand", "requires_order_by_in_window_function",
+                 "string_literal_backslash_escape"]     # since fix d2c1667: backslashes of string literals are doubled where the engine reads escapes
 OTHER_FEATURES = ["ident_quote", "ident_quoting_style", "column_exclude", "limit_for_bare_offset"]
 # trait methods that are not boolean/char/enum feature flags (algorithms with arguments): deliberately not translated
 NOT_FEATURES = ["interval_quoting_style", "translate_prql_date_format", "translate_chrono_item", "translate_sql_array"]
@@ -289,17 +290,19 @@ def generate():
     v += "Record feat := mkFeat { use_fetch : bool; ident_quote : N; always_quoted : bool; column_exclude : N (* 0 none, 1 EXCLUDE, 2 EXCEPT *);\n"
     v += "  set_ops_distinct : bool; except_all : bool; intersect_all : bool; has_concat_function : bool; stars_in_group : bool;\n"
     v += "  supports_distinct_on : bool; supports_zero_columns : bool; prefers_paren : bool; requires_order_by_in_window : bool;\n"
-    v += "  bare_offset_limit : option (list N) (* limit_for_bare_offset: spelling of the LIMIT emitted with a bare OFFSET *) }.\n\n"
+    v += "  bare_offset_limit : option (list N) (* limit_for_bare_offset: spelling of the LIMIT emitted with a bare OFFSET *);\n"
+    v += "  backslash_escape : bool (* string_literal_backslash_escape: backslashes of '...' literals are emitted doubled *) }.\n\n"
     v += "(* (dialect name, features after resolving handler(), trait defaults and overrides) in enum order *)\n"
     rows = []
     for n in info["names"]:
         f = info["feats"][n]
-        rows.append("(%s (* %s *), mkFeat %s %d %s %d %s %s %s %s %s %s %s %s %s %s)" % (
+        rows.append("(%s (* %s *), mkFeat %s %d %s %d %s %s %s %s %s %s %s %s %s %s %s)" % (
             codes(n), n, coq_bool(f["use_fetch"]), ord(f["ident_quote"]), coq_bool(f["always_quoted"]), f["column_exclude"],
             coq_bool(f["set_ops_distinct"]), coq_bool(f["except_all"]), coq_bool(f["intersect_all"]), coq_bool(f["has_concat_function"]),
             coq_bool(f["stars_in_group"]), coq_bool(f["supports_distinct_on"]), coq_bool(f["supports_zero_columns"]),
             coq_bool(f["prefers_subquery_parentheses_shorthand"]), coq_bool(f["requires_order_by_in_window_function"]),
-            "None" if f["limit_for_bare_offset"] is None else "(Some %s)" % codes(f["limit_for_bare_offset"])))
+            "None" if f["limit_for_bare_offset"] is None else "(Some %s)" % codes(f["limit_for_bare_offset"]),
+            coq_bool(f["string_literal_backslash_escape"])))
     v += "Definition feats : list (list N * feat) :=\n  [ " + ";\n    ".join(rows) + " ].\n\n"
     v += "(* operators of std.sql.prql: (dialect module, [] = root; operator path; body is null; body: Some text chunk | None = hole) *)\n"
     rows = []
